@@ -1,0 +1,5 @@
+//go:build !verif
+
+package starlark
+
+func verifStringHash(string) (uint32, bool) { return 0, false }
